@@ -1,6 +1,7 @@
 use crate::CheckDef;
 
 pub mod c01;
+pub mod c02;
 pub mod c17;
 pub mod c20;
 pub mod c21;
@@ -21,6 +22,16 @@ pub fn registry() -> &'static [CheckDef] {
             cpu_budget_ms: 60_000,
             run: c01::run,
             assumptions: &["bundled SQLite 3.46 is the reference; NULLS LAST is requested from it because vibesql documents NULLs-last ordering", "no division, modulo, LIKE, string-number comparison or values near the i64 limits (dialects differ there)"],
+        },
+        CheckDef {
+            id: "C02",
+            level: "exploration",
+            rule: "Twin databases with the same table t(id [PK], a, b, c VARCHAR, u): twin A gets 1-3 user indexes (single, text, multi-column, prefix c(2), DESC, DESC+multi, UNIQUE) created before or after the data; a random history of INSERT/UPDATE/DELETE (3-14 statements, NULL density 0/15/40 %) is applied to both (a statement A rejects is not applied to B); table contents must stay equal; then 12 queries with index-friendly predicates (= < <= > >= <>, BETWEEN, IN, IS NULL, AND/OR; literals NULL, min-1/min/max/max+1, 1.5, 2.0, +-i64 extremes, text around the prefix length) and optional ORDER BY a/c [DESC][, id] [LIMIT] are compared (multiset; sequence when ORDER BY ends in id) and A's output is checked against the requested order (NULLs last). distinct = (predicate shape, order shape, index kinds, empty/non-empty result) of queries for which the index_scan probe fired on A.",
+            floor: 60,
+            shards: 16,
+            cpu_budget_ms: 60_000,
+            run: c02::run,
+            assumptions: &["twin B has no user indexes (primary-key hash index only)"],
         },
         CheckDef {
             id: "C17",
